@@ -21,7 +21,7 @@
     points of io/utils must agree with the underlying parser. *)
 From Coq Require Import String Ascii ZArith QArith Bool Arith List.
 From GT Require Import Base.Sexp Base.UTree Base.Codec Model.Newick Model.NewickNum
-     Model.MultiTree Model.Nexus Judge.Common.
+     Model.MultiTree Model.Nexus Model.C02Extra8 Judge.Common.
 Import ListNotations.
 Local Close Scope Q_scope.
 Local Open Scope string_scope.
@@ -246,11 +246,44 @@ Definition has_key (k : string) (o : sexp) : option string :=
   | None => None
   end.
 
+(** family "chan": the channel hand-off of utils.ReadMultiTrees against Model/C02Extra8.v.
+    case ((fmt chan) (src ..) (text ..) (policy drain|stop)); obs ((chan T) (sent (flags)) (got n) (buf n) (rest n)).
+    The model runs the records actually sent (their error flags) through the channel of 10 with the
+    consumer policy under the alternating schedule until nothing moves any more (2n+2 rounds are
+    enough: Proofs/C02Extra8.v); compared: records received by the consumer, records waiting in the
+    buffer, records left (buffer + still held by the goroutine).  Oracle: a draining consumer, or a
+    stream whose only error record is the last one, leaves nothing behind (the goroutine returned). *)
+Fixpoint err_lastb (l : list bool) : bool :=
+  match l with
+  | [] => true
+  | r :: t => (negb r || match t with [] => true | _ => false end) && err_lastb t
+  end.
+
+Definition judge_chan (c o : sexp) : verdict :=
+  match get_string "policy" c, (x <- get "sent" o ;; dec_list dec_bool x),
+        get_nat "got" o, get_nat "buf" o, get_nat "rest" o with
+  | Some pol, Some sent, Some g, Some b, Some r =>
+    let stop := String.eqb pol "stop" in
+    let s := run bool (fun x => x) 10 stop (concat (repeat [false; true] (2 * length sent + 4))) (init bool sent) in
+    let mg := length (got bool s) in
+    let mb := length (buf bool s) in
+    let mr := length (buf bool s) + length (pending bool s) in
+    if (negb stop || err_lastb sent) && negb (Nat.eqb r 0)
+    then VOracle "the reader goroutine of ReadMultiTrees did not finish although the consumer took every record"
+    else if Nat.eqb mg g && Nat.eqb mb b && Nat.eqb mr r
+    then VOk (Nat.ltb 1 (length sent))
+             ("chan:" ++ pol ++ (if final bool s then ":finished" else ":goroutine-blocked"))
+    else VCorr ("channel protocol: model got/buf/rest " ++ string_of_nat mg ++ "/" ++ string_of_nat mb ++ "/" ++ string_of_nat mr
+                ++ ", implementation " ++ string_of_nat g ++ "/" ++ string_of_nat b ++ "/" ++ string_of_nat r)
+  | _, _, _, _, _ => VBad "undecodable chan case or observation"
+  end.
+
 Definition judge (c o : sexp) : verdict :=
   match has_key "bad" o, has_key "panic" o with
   | Some m, _ => VBad ("harness: " ++ m)
   | None, Some m => VOracle ("the worker process or handler died: " ++ m)
   | None, None =>
+    if match get_string "fmt" c with Some f => String.eqb f "chan" | None => false end then judge_chan c o else
     match get_string "fmt" c, get_string "text" c, get_bool "utf8" o,
           (x <- get "eps" o ;; dec_list dec_ep x) with
     | Some fmt, Some text, Some utf8, Some eps => judge_eps fmt text utf8 eps
